@@ -58,8 +58,14 @@ def lin(e: ast.AST) -> tuple[str | None, int] | None:
     return None
 
 
+_STRLIT = re.compile(r"""'(?:[^'\\]|\\.)*'|"(?:[^"\\]|\\.)*\"""")
+
+
 def mentions(term: str, path: str) -> bool:
-    """Does the canonical text `term` mention access path `path` (a name or a dotted path)?"""
+    """Does the canonical text `term` mention access path `path` (a name or a dotted path)?  String literals inside the
+    term are not identifiers (`token.type == 'text'` does not mention a variable called text)."""
+    if "'" in term or '"' in term:
+        term = _STRLIT.sub("''", term)
     for m in IDENT.finditer(term):
         t = m.group(0)
         if t == path or t.startswith(path + "."):
